@@ -531,18 +531,72 @@ def run_c03(prop, tier, seed):
                 ev['problems'].append('engine B/C03: z3 returned %s (%s) for %r' % (verdict, info, p['src'][:80]))
     if unconfirmed:
         ev['problems'].extend(unconfirmed[:5])
+    prologue_cov = c03_prologue_part(prop, tier, ev)
     log('[%s] engine B closures: %d programs, %d macro-body queries: unsat=%d sat=%d (confirmed natively %d), z3 %.1fs' % (prop, len(fam), nq, nun, nsat, nconf, z3s))
-    ev['coverage'] = dict(programs=len(fam), queries=nq, unsat=nun, sat=nsat, sat_confirmed_natively=nconf, z3_seconds=round(z3s, 1),
+    ev['coverage'] = dict(programs=len(fam), queries=nq, unsat=nun, sat=nsat, sat_confirmed_natively=nconf, z3_seconds=round(z3s, 1), prologues=prologue_cov,
                           family='macro family: %d prefixes x %d signatures x %d bodies + call blocks (%d signatures x %d bodies); every branch outcome symbolic, loops unrolled %d' % (
                               len(G.MACRO_PREFIX), len(G.MACRO_SIGS), len(G.MACRO_BODIES), len(G.CALLER_SIGS), len(G.CALLER_BODIES), unroll),
                           samples=samples, wall_s=round(time.time() - t0, 1))
     return ev
 
 
+def c03_prologue_part(prop, tier, ev):
+    """Macro and call-block prologues: every parameter receives its own argument or its own default."""
+    fam = G.prologue_family()
+    for i, p in enumerate(fam):
+        p['id'] = i
+    dumps = {d['id']: d for d in run_tool('dump', [dict(id=p['id'], src=p['src']) for p in fam], timeout=600)}
+    nq = nun = nsat = nconf = 0
+    z3s = 0.0
+    ctx = {'v': 'CTXV', 'w': 'CTXW'}
+    for p in fam:
+        d = dumps.get(p['id'])
+        if d is None or 'error' in d:
+            ev['problems'].append('engine B/C03 prologue: the compiler rejected %r: %s' % (p['src'][:80], (d or {}).get('error')))
+            continue
+        ins = d['instrs']
+        want_name = 'm' if p['kind'] == 'macro' else 'caller'
+        for name, entry, bpc, enc in E.macro_units(ins):
+            if name != want_name:
+                continue
+            params = E.macro_params(ins, bpc)
+            spec = dict(p['spec'])
+            if params is None or params != [x for x, _ in p['spec']]:
+                ev['problems'].append('engine B/C03 prologue: parameter list %s of %r does not match the signature' % (params, p['src'][:60]))
+                continue
+            verdict, info, dt, stats = E.sym_macro_prologue(ins, entry, params, spec)
+            z3s += dt
+            nq += 1
+            if verdict == 'unsat':
+                nun += 1
+            elif verdict == 'sat':
+                nsat += 1
+                o = run_tool('render', [dict(src=p['src'], ctx=ctx)])[0]
+                exp = G.prologue_expected(p['spec'], ctx)
+                ok = 'ok' in o and all(e in o['ok'] for e in exp)
+                if not ok:
+                    nconf += 1
+                    if len(ev['violations']) < 5:
+                        h = hashlib.sha1(p['src'].encode()).hexdigest()[:10]
+                        rp = os.path.join(nativelib.replay_dir(), '%s-B-%s.json' % (prop, h))
+                        json.dump(dict(property=prop, engine='B', kind='prologue', program=p['src'], spec=p['spec'], bytecode_path=_js(info),
+                                       native=dict(context=ctx, output=o.get('ok', o), expected_fragments=exp), how='bin/check %s --replay %s' % (prop, rp)), open(rp, 'w'), indent=1)
+                        ev['violations'].append(dict(replay=rp, failed=[dict(desc='%s(%s): a parameter does not receive its own argument/default (%s); native render %r lacks one of %s' % (
+                            want_name, p['sig'], info, str(o.get('ok', o))[:120], exp), loc='macro prologue @%d' % entry)]))
+                else:
+                    ev['problems'].append('engine B/C03 prologue: solver finds a wrong binding in %r (%s) but the native render is as expected' % (p['src'][:80], info))
+            else:
+                ev['problems'].append('engine B/C03 prologue: %s (%s) for %r' % (verdict, info, p['src'][:80]))
+    log('[%s] engine B prologues: %d programs, %d queries: unsat=%d sat=%d (confirmed natively %d), z3 %.1fs' % (prop, len(fam), nq, nun, nsat, nconf, z3s))
+    return dict(programs=len(fam), queries=nq, unsat=nun, sat=nsat, sat_confirmed_natively=nconf, z3_seconds=round(z3s, 1))
+
+
 def replay_c03(path):
     d = json.load(open(path))
     o = run_tool('render', [dict(src=d['program'], ctx=d['native']['context'])])[0]
     print(json.dumps(o))
+    if d.get('kind') == 'prologue':
+        return not ('ok' in o and all(e in o['ok'] for e in d['native']['expected_fragments']))
     return 'panic' in o or ('ok' in o and G.closure_oracle(d.get('prefix'), d['native']['context'], o['ok']) is not None)
 
 
